@@ -19,10 +19,11 @@ func newReaderObj(mm *fold.Machine, L *readerLayout, frag bool, checkUTF8 bool, 
 	st.F[L.state] = fold.K(state)
 	st.F[L.skip] = fold.Bool(false)
 	st.F[L.checkUTF8] = fold.Bool(checkUTF8)
-	st.F[L.exts] = fold.Nil{}
-	st.F[L.maxFrame] = fold.K(0)
-	st.F[L.onCont] = fold.Nil{}
-	st.F[L.onInter] = fold.Nil{}
+	// configuration: recognisable values, so that a reset that drops one of them shows
+	st.F[L.exts] = fold.Sym{Name: "cfg-extensions", NonNil: true}
+	st.F[L.maxFrame] = fold.Int{Lo: 1, Hi: fold.MaxInt64, Name: "cfg-maxframe"}
+	st.F[L.onCont] = fold.Sym{Name: "cfg-oncontinuation", NonNil: true}
+	st.F[L.onInter] = fold.Sym{Name: "cfg-onintermediate", NonNil: true}
 	st.F[L.opCode] = fold.K(1)
 	st.F[L.frame] = frame
 	st.F[L.raw] = fold.Struct{F: []fold.Val{fold.Sym{Name: "Source", NonNil: true}, fold.Int{Lo: 1, Hi: fold.MaxInt64, Name: "N"}}}
@@ -37,6 +38,12 @@ func newReaderObj(mm *fold.Machine, L *readerLayout, frag bool, checkUTF8 bool, 
 
 type readerFinal struct {
 	rawR, rawN, frame, state, opCode, utf8Source, utf8State, utf8Accepted string
+	config                                                                string // the configuration fields, rendered
+}
+
+// readerConfigWant is what newReaderObj puts into the configuration fields.
+func readerConfigWant(checkUTF8 bool) string {
+	return fmt.Sprintf("Source skip=false checkUTF8=%v cfg-extensions cfg-maxframe cfg-oncontinuation cfg-onintermediate", checkUTF8)
 }
 
 func readFinal(mm *fold.Machine, recv *fold.Obj, L *readerLayout) readerFinal {
@@ -44,6 +51,9 @@ func readFinal(mm *fold.Machine, recv *fold.Obj, L *readerLayout) readerFinal {
 	return readerFinal{
 		rawR: ld(L.raw, 0), rawN: ld(L.raw, 1), frame: ld(L.frame), state: ld(L.state), opCode: ld(L.opCode),
 		utf8Source: ld(uPath(L.utf8, L.utf8SourceP)...), utf8State: ld(uPath(L.utf8, L.utf8StateP)...), utf8Accepted: ld(uPath(L.utf8, L.utf8AcceptedP)...),
+		config: fmt.Sprintf("%s skip=%s checkUTF8=%s %s %s %s %s", nameOf(mm.Load(fold.Ref{O: recv, Path: []int{L.source}})), ld(L.skip), ld(L.checkUTF8),
+			nameOf(mm.Load(fold.Ref{O: recv, Path: []int{L.exts}})), nameOf(mm.Load(fold.Ref{O: recv, Path: []int{L.maxFrame}})),
+			nameOf(mm.Load(fold.Ref{O: recv, Path: []int{L.onCont}})), nameOf(mm.Load(fold.Ref{O: recv, Path: []int{L.onInter}}))),
 	}
 }
 
@@ -258,6 +268,9 @@ func readerReadRules(c *Ctx, prop string) {
 			if e != "global:io.EOF" || !strings.HasPrefix(n, "n") {
 				problems = append(problems, "end of the final fragment must return (n, io.EOF) "+desc+": ("+n+","+e+")")
 			}
+			if r.fin.config != readerConfigWant(in.checkUTF8) {
+				problems = append(problems, "the end-of-message reset changes the reader's configuration: "+r.fin.config+" (a limit or callback that is silently gone after the first message) "+desc)
+			}
 			if r.fin.frame != "nil" || r.fin.rawN != "0" || r.fin.utf8State != "0" || r.fin.utf8Accepted != "0" || r.fin.utf8Source != "nil" || r.fin.opCode != "0" {
 				problems = append(problems, fmt.Sprintf("end of message must reset the reader (frame=%s raw.N=%s utf8.state=%s accepted=%s opCode=%s) %s", r.fin.frame, r.fin.rawN, r.fin.utf8State, r.fin.utf8Accepted, r.fin.opCode, desc))
 			}
@@ -435,6 +448,24 @@ func readerDiscardRules(c *Ctx, prop string) {
 		if r.fin.frame != "nil" || r.fin.rawN != "0" || r.fin.utf8State != "0" || r.fin.opCode != "0" {
 			problems = append(problems, "Discard leaves the reader without reset() "+desc)
 		}
+		if r.fin.config != readerConfigWant(true) {
+			problems = append(problems, "Discard changes the reader's configuration: "+r.fin.config+" "+desc)
+		}
 	}
 	c.verdict(rule, rule+"/Discard", c.P.FuncPos(f), uniq(problems), fmt.Sprintf("%d paths", len(out)))
+}
+
+// nameOf is the symbolic name of a value (its rendering if it has none).
+func nameOf(v fold.Val) string {
+	switch x := v.(type) {
+	case fold.Sym:
+		return x.Name
+	case fold.Int:
+		if x.Name != "" {
+			return x.Name
+		}
+	case fold.Iface:
+		return nameOf(x.V)
+	}
+	return fold.Show(v)
 }
